@@ -334,6 +334,8 @@ theorem dra_cancelAllFor {p : Pid} {w : World} (h : DeadRecA p w) (z : Pid) : De
   dra_of_procs h (by simp)
 theorem dra_cancelKindFor {p : Pid} {w : World} (h : DeadRecA p w) (z : Pid) (act : Nat) (sig : Option Int) : DeadRecA p ((cancelKindFor w z act sig).1) :=
   dra_of_procs h (by simp)
+theorem dra_cancelUserAll {p : Pid} {w : World} (h : DeadRecA p w) : DeadRecA p ((cancelUserAll w).1) :=
+  dra_of_procs h (by simp)
 theorem dra_recordRes {p : Pid} {w : World} (h : DeadRecA p w) (r : Nat) : DeadRecA p (recordRes w r) :=
   dra_of_procs h (by simp)
 theorem dra_recordPool {p : Pid} {w : World} (h : DeadRecA p w) (r : Nat) : DeadRecA p (recordPool w r) :=
@@ -414,6 +416,7 @@ macro_rules
             | apply dra_evCancel
             | apply dra_cancelAllFor
             | apply dra_cancelKindFor
+            | apply dra_cancelUserAll
             | apply dra_recordRes
             | apply dra_recordPool
             | apply dra_recordBuf
